@@ -17,7 +17,7 @@ from fibertree import TensorImage, TreeImage, UncompressedImage
 from fibertree.model import Format
 
 from mc import core
-from mc.obs import rawtree, rawtensor, rank_index_view, ids, mirror
+from mc.obs import rawtree, rawtensor, rank_index_view, ids, mirror, freeze
 from mc.univ import t2, t3, mktree, tree_features, RANK_IDS
 
 LEVEL = "model_checking"
@@ -62,7 +62,7 @@ def snap(x):
         return ("T", rawtensor(x), rank_index_view(x))
     if isinstance(x, Fiber):
         ra = x.getRankAttrs()
-        return ("F", rawtree(x), x._active_range, (ra._id, ra._shape, ra._fmt, repr(ra._default)))
+        return ("F", rawtree(x), x._active_range, (freeze(ra._id), freeze(ra._shape), ra._fmt, repr(ra._default)))
     if isinstance(x, Payload):
         return ("P", x.value)
     return ("?", repr(x))
@@ -90,6 +90,13 @@ def _ops_tensor(depth):
         "merge-relative": lambda T: T.mergeRanks(coord_style="relative"),
         "flatten-unflatten": lambda T: T.flattenRanks().unflattenRanks(),
         "unflatten-of-flat": lambda T: _unflat_only(T),
+        # second transform of an already transformed operand (its rank ids / shapes are lists and tuples)
+        "flatten-of-flat": lambda T: _second(T, lambda F: F.flattenRanks()),
+        "merge-of-flat": lambda T: _second(T, lambda F: F.mergeRanks(coord_style="absolute")),
+        "swizzle-of-flat": lambda T: _second(T, lambda F: F.swizzleRanks(list(reversed(F.getRankIds())))),
+        "split-of-split": lambda T: _second(T, lambda F: F.splitUniform(1, depth=1), first=lambda T: T.splitUniform(1)),
+        "flatten-of-split": lambda T: _second(T, lambda F: F.flattenRanks(coord_style="absolute"),
+                                              first=lambda T: T.splitUniform(1)),
         "updateCoords": lambda T: T.updateCoords(lambda i, c, p: c + 1),
         "updateCoords-leaf": lambda T: T.updateCoords(lambda i, c, p: c + 1, depth=last),
         "updatePayloads-leaf": lambda T: T.updatePayloads(lambda i, c, p: p * 2, depth=last),
@@ -120,8 +127,20 @@ def _unflat_only(T):
     return h
 
 
+def _second(T, op, first=None):
+    """`op` applied to an already transformed tensor F = first(T) (default: flatten)."""
+    F = first(T) if first else T.flattenRanks()
+    h = _Holder()
+    h.operand = F
+    h.before = snap(F)
+    h.result = op(F)
+    return h
+
+
 NEEDS_CONTENT = ("fiber-swap", "fiber-flatten", "fiber-merge", "swap", "flatten", "flatten-linear", "flatten-pair",
-                 "merge-absolute", "merge-relative", "flatten-unflatten", "unflatten-of-flat")
+                 "merge-absolute", "merge-relative", "flatten-unflatten", "unflatten-of-flat", "flatten-of-flat",
+                 "merge-of-flat", "swizzle-of-flat", "flatten-of-split")
+DEPTH3_ONLY = ("flatten-of-flat", "merge-of-flat", "swizzle-of-flat")
 
 
 def _leaf_ops():
@@ -315,6 +334,8 @@ def case_value_returning(case):
         fn = _OPS[depth][opname]
         if opname in NEEDS_CONTENT and not _leaves(T):
             return out
+        if opname in DEPTH3_ONLY and depth < 3:
+            return out
 
         def make():
             t = mk(spec, depth, cfg)
@@ -324,7 +345,8 @@ def case_value_returning(case):
             r = fn(t)
             if isinstance(r, _Holder):
                 h.operand, h.result = r.operand, r.result
-                h.before = None
+                h.T = r.operand
+                h.before = getattr(r, "before", None)
             else:
                 h.operand, h.result = t, r
             return h
